@@ -22,7 +22,7 @@ LEVEL = 'other'
 MANIFEST = {
     'engine': 'fst+pysym',
     'level': 'other',
-    'technique': 'per-token identity of lexer actions (transducer equivalence), inductive invariant of tokens_to_string checked on its real loop body with z3 sequences, symbolic execution of the raw_query and embedding actions',
+    'technique': 'per-token identity of lexer actions (transducer equivalence), inductive invariant of tokens_to_string checked on its real loop body with z3 sequences, symbolic execution of the raw_query and embedding actions (found through the grammar symbol raw_query); differential run against the specification of the rebuilt text when the invariant\'s state variables are not those of the code',
     'text': 'The reconstruction is proved correct (for any number of tokens, any layout) under the precondition that token values equal '
             'their source text; that precondition is decided per token kind and fails for exactly the kinds whose lexer action rewrites '
             'the value (genuine defect: known findings with embedded-query witnesses). Collection and storing actions are proved.',
